@@ -6,11 +6,13 @@ SIM_STUBS = ['kernel eventfd (descriptor table in sim/sim.c)',
 ENGINES = {
     'estruct': {
         'src': ['harness/estruct.c'],
-        'repo_src': [],
+        'sim_src': ['sim/upump_sim.c'],
+        'repo_src': ['lib/upipe/upump_common.c'],
         'real': ['include/upipe/uatomic.h', 'include/upipe/uring.h', 'include/upipe/ufifo.h',
                  'include/upipe/ulifo.h', 'include/upipe/upool.h', 'include/upipe/uqueue.h',
-                 'include/upipe/ueventfd.h', 'include/upipe/urefcount.h'],
-        'stubs': SIM_STUBS,
+                 'include/upipe/ueventfd.h', 'include/upipe/urefcount.h', 'include/upipe/udeal.h',
+                 'lib/upipe/upump_common.c'],
+        'stubs': SIM_STUBS + ['event loop (sim/upump_sim.c in place of libev, over the real upump_common.c)'],
     },
 }
 
